@@ -149,6 +149,31 @@ class Objects:
         if (pfx, sfx, am) == (DEF_PFX, DEF_SFX, 1) and node is not None and not fresh:
             return self.at(node)  # the constructor already ran _begin under exactly this configuration
         key = (pfx, sfx, am, node)
+        if not fresh and node is not None and (pfx * 31 + len(sfx) + am + node) % 4 == 0:
+            # one long-lived object re-configured IN PLACE (address_suffix[:] = …, address_prefix[0] = …) and re-begun: an
+            # application that edits the documented bytearray attributes instead of replacing them.  Whatever the object
+            # computed under earlier configurations must not survive.
+            r = getattr(self, "recycled", None)
+            if r is None:
+                r = self.recycled = self.fresh(0o123)
+            # first the SAME node under another configuration (so that everything about this node has been computed
+            # once), then the requested configuration, both edited in place
+            r.address_prefix[:] = bytes([pfx ^ 0x5A])
+            r.address_suffix[:] = bytes(reversed(bytes.fromhex(DEF_SFX)))
+            r.allow_multicast = bool(am)
+            try:
+                with deadline():
+                    r.node_address = node
+            except (SimTimeout, Skipped):
+                raise
+            except Exception:  # noqa: BLE001 - an unusable first configuration is of no interest here
+                pass
+            r.address_prefix[:] = bytes([pfx])
+            r.address_suffix[:] = bytes.fromhex(sfx) if sfx != "-" else b""
+            r.allow_multicast = bool(am)
+            with deadline():
+                r.node_address = node
+            return r
         if len(self.cache) > 8000:
             self.cache = {}
         o = None if fresh else self.cache.get(key)
@@ -499,6 +524,14 @@ class C04(PropCheck):
                     if cfg_ok(pfx, sfx) and n in NODESET:
                         if op == "rxaddrs":
                             f = self._judge_listen(l, pfx, sfx, am, n, range(6))
+                            t = self._table(pfx, sfx, am)
+                            if f is None and t is not None and isinstance(t[1][n], list) and not io.startswith("exc="):
+                                # what THIS object's radio listens on (it may have lived through other configurations
+                                # before) against a freshly constructed node of the same configuration
+                                want = " ".join("closed" if x is None else hx(x) for x in t[1][n])
+                                if io != want:
+                                    f = Finding(l, f"node {oct(n)} re-begun under this configuration listens on [{io}], a freshly "
+                                                   f"constructed node with the same settings on [{want}]", {"node": n, "class": "stale"})
                         elif int(a[4]) <= 5:
                             if io.startswith("exc=") or len(io) != 10:
                                 f = Finding(l, f"_pipe_address({oct(n)}, {a[4]}) gives {io}, not a 5-byte address",
